@@ -27,6 +27,15 @@ ISIFACE = job['isiface']          # index 0 -> node 1
 ROOTX = job['root_explicit']
 PROP = job['prop']
 VALID_ONLY = bool(job.get('valid_only'))
+# twins: distinct interface objects with equal (__name__, __module__); for
+# membership questions they are the same interface (by design of equality)
+TWIN = {}
+for _a, _b in job.get('twins') or []:
+    TWIN[_b] = _a
+
+
+def canon(x):
+    return TWIN.get(x, x)
 PROPS = {'C02', 'C03', 'C15'} if PROP == 'C10' else {PROP}
 evaluations = 0
 mismatches = []
@@ -80,7 +89,8 @@ class World:
             else:
                 attrs['__interface_tagged_values__'] = {'u%d' % n: n}
             self.kind[n] = 'iface'
-            return InterfaceClass('I%d' % n, b, attrs, __module__=self.module)
+            return InterfaceClass('I%d' % canon(n), b, attrs,
+                                  __module__=self.module)
         flavour = ('impl', 'prov', 'decl')[(n + N) % 3]
         self.kind[n] = flavour
         if flavour == 'impl':
@@ -160,16 +170,18 @@ def check(w, bases, obs, ctx):
             if set(sro) != set(fget(obs['isoe'], n)):
                 mism(ctx, 'sro-set n=%d' % n, sorted(fget(obs['isoe'], n)),
                      sro)
+            isoe_c = {canon(x) for x in fget(obs['isoe'], n)}
             for m in range(0, N + 1):
                 other = w.obj[m]
-                e = m in fget(obs['isoe'], n)
+                e = canon(m) in isoe_c
                 evaluations += 1
                 g = spec.isOrExtends(other)
                 if bool(g) != e:
                     mism(ctx, 'isOrExtends(%d,%d)' % (n, m), e, g)
                 g = spec.extends(other)
-                if bool(g) != (e and m != n):
-                    mism(ctx, 'extends(%d,%d)' % (n, m), e and m != n, g)
+                if bool(g) != (e and canon(m) != canon(n)):
+                    mism(ctx, 'extends(%d,%d)' % (n, m),
+                         e and canon(m) != canon(n), g)
                 g = spec.extends(other, strict=False)
                 if bool(g) != e:
                     mism(ctx, 'extends(%d,%d,strict=False)' % (n, m), e, g)
@@ -351,40 +363,55 @@ def mro_guard(case):
                                    'python': mro})
 
 
-if job['mode'] == 'dag':
-    for ci, case in enumerate(job['cases']):
-        childlib.CASE[0] = ci
-        if 'C03' in PROPS and not VALID_ONLY:
-            mro_guard(case)
-        for build in ('ctor', 'assign'):
-            w = World(case['defA'], case['bases'], build)
-            check(w, case['bases'], case,
-                  {'case': case['bases'], 'defA': case['defA'],
-                   'build': build})
-            if len(mismatches) > 50:
-                break
-        del w
-else:
-    for ci, case in enumerate(job['cases']):
-        childlib.CASE[0] = ci
-        w = World(case['defA'])
-        steps = case['steps']
-        trail = []
-        for si, st in enumerate(steps):
-            r = w.apply(st['act'])
-            trail.append(st['act'])
-            if st['act']['op'] == 'Get' and 'C15' in PROPS and \
-                    st.get('check', True):
-                evaluations += 1
-                if r != st['act']['res']:
-                    mism({'steps': list(trail)}, 'Get result',
-                         st['act']['res'], r)
-            if st.get('obs') is not None:
-                check(w, st['bases'], st['obs'], {'steps': list(trail),
-                                                  'defA': case['defA']})
+def run_dag_case(case):
+    global evaluations
+    if 'C03' in PROPS and not VALID_ONLY:
+        mro_guard(case)
+    for build in ('ctor', 'assign'):
+        w = World(case['defA'], case['bases'], build)
+        check(w, case['bases'], case,
+              {'case': case['bases'], 'defA': case['defA'],
+               'build': build})
         if len(mismatches) > 50:
             break
-        del w
+
+
+def run_hist_case(case):
+    global evaluations
+    w = World(case['defA'])
+    steps = case['steps']
+    trail = []
+    for si, st in enumerate(steps):
+        r = w.apply(st['act'])
+        trail.append(st['act'])
+        if st['act']['op'] == 'Get' and 'C15' in PROPS and \
+                st.get('check', True):
+            evaluations += 1
+            if r != st['act']['res']:
+                mism({'steps': list(trail)}, 'Get result',
+                     st['act']['res'], r)
+        if st.get('obs') is not None:
+            check(w, st['bases'], st['obs'], {'steps': list(trail),
+                                              'defA': case['defA']})
+
+
+for ci, case in enumerate(job['cases']):
+    childlib.CASE[0] = ci
+    try:
+        if job['mode'] == 'dag':
+            run_dag_case(case)
+        else:
+            run_hist_case(case)
+    except Exception as e:      # raised by the code under test
+        import traceback
+        tb = traceback.format_exc().strip().split('\n')
+        mism({'case': case.get('bases') or
+              [s['act'] for s in case.get('steps', [])],
+              'defA': case.get('defA')},
+             'unexpected exception', 'no exception',
+             '%s: %s | %s' % (type(e).__name__, e, ' / '.join(tb[-6:])))
+    if len(mismatches) > 50:
+        break
 
 childlib.done({'evaluations': evaluations, 'mismatches': mismatches[:60],
                'guard_failures': guard_failures[:20]})
